@@ -779,6 +779,10 @@ def part_indent(check, cps, hp, work):
 			check.fail(signature, f'{name}: {what}', replay)
 		# the real path
 		result = real_fix_case(cps, hp, validators, work, 'x.h' if rel is None else os.path.basename(rel), text)
+		if result['outcome'] == 'crash:LexError' and 'inside lines)' in name:
+			# the injected character landed where the linter's C++ lexer does not accept it: not a file of the kind the property ranges over
+			check.case('fix-indents:injected-character-not-lexable', digest(text), False)
+			continue
 		if result['outcome'] != 'ok':
 			unchanged = result['after'] == text
 			check.fail(
